@@ -1,0 +1,175 @@
+//go:build verif
+
+package client
+
+import (
+	"context"
+	"net"
+	"time"
+
+	"github.com/datastax/go-cassandra-native-protocol/frame"
+	"github.com/datastax/go-cassandra-native-protocol/primitive"
+)
+
+// This file is only compiled with the "verif" build tag. It exposes unexported state of the client package to an
+// external verification harness: an export shim around the in-flight requests handler, constructors that build
+// connections on a caller-supplied net.Conn, read-only projections, and two hook variables.
+
+// VerifHook, when set, is called at trace points (inside critical sections; must never block).
+var VerifHook func(point string, a, b int64)
+
+// VerifGate, when set, is called at gate points (outside every lock; may block the calling goroutine).
+var VerifGate func(point string, a int64)
+
+func verifPoint(point string, a, b int64) {
+	if hook := VerifHook; hook != nil {
+		hook(point, a, b)
+	}
+}
+
+func verifGate(point string, a int64) {
+	if gate := VerifGate; gate != nil {
+		gate(point, a)
+	}
+}
+
+// VerifInFlightHandler wraps the unexported in-flight requests handler.
+type VerifInFlightHandler struct {
+	h *inFlightRequestsHandler
+}
+
+func VerifNewInFlightHandler(ctx context.Context, maxInFlight int, maxPending int, timeout time.Duration) *VerifInFlightHandler {
+	return &VerifInFlightHandler{newInFlightRequestsHandler("verif", ctx, maxInFlight, maxPending, timeout)}
+}
+
+func (v *VerifInFlightHandler) Enqueue(f *frame.Frame) (InFlightRequest, error) {
+	return v.h.onOutgoingFrameEnqueued(f)
+}
+
+func (v *VerifInFlightHandler) Deliver(f *frame.Frame) error {
+	return v.h.onIncomingFrameReceived(f)
+}
+
+func (v *VerifInFlightHandler) Close() {
+	v.h.close()
+}
+
+func (v *VerifInFlightHandler) IsClosed() bool {
+	return v.h.isClosed()
+}
+
+// FreeIds returns the contents of the free stream id pool, in queue order; ok is false when the pool has been
+// discarded or closed. It drains and refills the pool and must only be called when the handler is quiescent.
+func (v *VerifInFlightHandler) FreeIds() (ids []int16, ok bool) {
+	ch := v.h.streamIds
+	if ch == nil {
+		return nil, false
+	}
+	n := len(ch)
+	for i := 0; i < n; i++ {
+		id, open := <-ch
+		if !open {
+			return ids, false
+		}
+		ids = append(ids, id)
+	}
+	if n == 0 {
+		select {
+		case _, open := <-ch:
+			if !open {
+				return nil, false
+			}
+			panic("verif: free id pool changed while projecting")
+		default:
+		}
+	}
+	for _, id := range ids {
+		ch <- id
+	}
+	return ids, true
+}
+
+// InFlightIds returns the stream ids currently registered in the in-flight table (unordered).
+func (v *VerifInFlightHandler) InFlightIds() []int16 {
+	v.h.inFlightLock.RLock()
+	defer v.h.inFlightLock.RUnlock()
+	ids := make([]int16, 0, len(v.h.inFlight))
+	for id := range v.h.inFlight {
+		ids = append(ids, id)
+	}
+	return ids
+}
+
+// InFlightRequestFor returns the request registered under the given stream id, if any.
+func (v *VerifInFlightHandler) InFlightRequestFor(id int16) InFlightRequest {
+	v.h.inFlightLock.RLock()
+	defer v.h.inFlightLock.RUnlock()
+	if r, found := v.h.inFlight[id]; found {
+		return r
+	}
+	return nil
+}
+
+// VerifRequestState is a read-only projection of an in-flight request.
+type VerifRequestState struct {
+	StreamId    int16
+	Managed     bool
+	Done        bool
+	Err         error
+	Pending     int
+	InternalNil bool
+}
+
+func VerifProjectRequest(req InFlightRequest) VerifRequestState {
+	r := req.(*inFlightRequest)
+	r.lock.RLock()
+	defer r.lock.RUnlock()
+	return VerifRequestState{
+		StreamId:    r.streamId,
+		Managed:     r.managedStreamId,
+		Done:        r.done,
+		Err:         r.err,
+		Pending:     len(r.incoming),
+		InternalNil: r._incoming == nil,
+	}
+}
+
+// VerifNewClientConnection builds a client connection on a caller-supplied net.Conn.
+func VerifNewClientConnection(
+	conn net.Conn,
+	ctx context.Context,
+	credentials *AuthCredentials,
+	compression primitive.Compression,
+	maxInFlight int,
+	maxPending int,
+	readTimeout time.Duration,
+	handlers []EventHandler,
+) (*CqlClientConnection, error) {
+	return newCqlClientConnection(conn, ctx, credentials, compression, maxInFlight, maxPending, readTimeout, handlers)
+}
+
+// VerifNewServerConnection builds a server connection on a caller-supplied net.Conn.
+func VerifNewServerConnection(
+	conn net.Conn,
+	ctx context.Context,
+	credentials *AuthCredentials,
+	maxInFlight int,
+	idleTimeout time.Duration,
+	handlers []RequestHandler,
+	rawHandlers []RawRequestHandler,
+	onClose func(*CqlServerConnection),
+) (*CqlServerConnection, error) {
+	return newCqlServerConnection(conn, ctx, credentials, maxInFlight, idleTimeout, handlers, rawHandlers, onClose)
+}
+
+func (c *CqlClientConnection) VerifModernLayout() bool { return c.modernLayout }
+
+func (c *CqlClientConnection) VerifCompression() primitive.Compression { return c.compression }
+
+func (c *CqlClientConnection) VerifInFlight() *VerifInFlightHandler {
+	return &VerifInFlightHandler{c.inFlightHandler}
+}
+
+func (c *CqlServerConnection) VerifModernLayout() bool { return c.modernLayout }
+
+func (c *CqlServerConnection) VerifCompression() primitive.Compression { return c.compression }
